@@ -193,6 +193,11 @@ def explore_grouped(chk, g, rows, tag):
             bad = [k for k in kids if isinstance(k, bromgen.Failed)]
             objs.append((r, drop, bad[0].err if bad else guarded(lambda: cls(kids))))
             lines.append("enc G %s - %d %s" % (r["name"], len(kids), " ".join(ktoks)))
+            # the same members handed over as wire data (the way the decoder builds the class): same verdict
+            if not bad:
+                data = b"".join(k.dump() for k in kids)
+                objs.append((r, drop, guarded(lambda: cls(data))))
+                lines.append("enc G %s - %d %s" % (r["name"], len(kids), " ".join(ktoks)))
         for v, name in ((None, "None"), (5, "int"), ("abc", "str"), ([1, 2], "list-of-int"), ({}, "dict")):
             kind, val = guarded(lambda: cls(v))
             inp = {"op": "construct-grouped", "class": r["name"], "value": name}
